@@ -39,6 +39,10 @@ const (
 	PStopWhileChanBlocked
 	PFlood
 	PTCPStalledPrefix
+	PJunk
+	PLifecycleCycle
+	PLifecycleInFlight
+	PStopAtStatement
 )
 
 var ProbeNames = map[int]string{
@@ -63,9 +67,13 @@ var ProbeNames = map[int]string{
 	PStopWhileChanBlocked:  "stop_while_sut_task_blocked_on_channel",
 	PFlood:                 "burst_of_8_to_40_datagrams_from_one_client",
 	PTCPStalledPrefix:      "tcp_frame_prefix_split_across_the_read_timeout",
+	PJunk:                  "datagrams_announcing_more_questions_than_they_carry",
+	PLifecycleCycle:        "start_stop_cycle_without_traffic_after_stop",
+	PLifecycleInFlight:     "start_stop_cycle_with_requests_in_flight",
+	PStopAtStatement:       "stop_placed_at_an_exact_sut_statement_boundary",
 }
 
-var scenarioNames = [...]string{"nbns-server", "nbns-udp+tcp", "llmnr-server", "llmnr-client", "llmnr-client+server", "nbns-challenger"}
+var scenarioNames = [...]string{"nbns-server", "nbns-udp+tcp", "llmnr-server", "llmnr-client", "llmnr-client+server", "nbns-challenger", "nbns-lifecycle"}
 
 // Run executes one simulated run.
 func Run(seed uint64, index int64, o hx.Opts) *hx.Result {
@@ -73,7 +81,8 @@ func Run(seed uint64, index int64, o hx.Opts) *hx.Result {
 	en := hx.AllKinds()
 	cfg := rt.Config{Seed: seed, Replay: o.Replay, Verbose: o.Verbose, NPoints: o.NPoints, Bias: hx.Swarm(seed, en), MaxSteps: 2_000_000}
 	cfg.PCT = hx.SwarmPCT(seed)
-	if o.Scenario == "openum" {
+	if o.Scenario == "openum" || o.Scenario == "stopenum" {
+		cfg.PCT = false
 		for k := range cfg.Bias {
 			cfg.Bias[k] = 0
 		}
@@ -88,6 +97,11 @@ func Run(seed uint64, index int64, o hx.Opts) *hx.Result {
 			bad = b
 			res.Sample = desc
 			res.NonTrivial = true
+			return
+		}
+		if o.Scenario == "stopenum" {
+			res.Scenario = "stopenum"
+			bad = runStopEnum(w, res, index)
 			return
 		}
 		sc := hx.G(len(scenarioNames))
@@ -108,6 +122,8 @@ func Run(seed uint64, index int64, o hx.Opts) *hx.Result {
 			bad = runLLMNR(w, res, true, true)
 		case 5:
 			bad = runChallenger(w, res)
+		case 6:
+			bad = runLifecycle(w, res)
 		}
 	})
 	res.SimNs = w.SimNow()
@@ -157,8 +173,12 @@ func joinStr(s []string, sep string) string {
 // (stalled-task fault), so an expired bound proves nothing there: on expiry the run is switched to the
 // quiet phase (time advances only when everybody is blocked) and the task gets the full bound again.
 func joinWithin(t *rt.Task, boundNs int64) bool {
+	skips := rt.W.Stats.TimeSkips
 	if rt.Join(t, rt.Now()+boundNs) {
 		return true
+	}
+	if rt.W.Quiet || rt.W.Stats.TimeSkips == skips {
+		return false // every nanosecond of the bound passed with all tasks blocked: conclusive
 	}
 	rt.W.Quiet = true
 	return rt.Join(t, rt.Now()+boundNs)
